@@ -28,7 +28,10 @@ def inputs(tier):
         restrs += [("LEAVES", "only leaves\n"), ("T13", "only normal\nonly tutorial1,tutorial3\n"),
                    ("REMOTE", "only leaves..tutorial3.remote\n"), ("NOOPCHAIN", "only leaves..tutorial_gui.client_noop,leaves..tutorial_get.explicit_noop\n")]
     vmsets = [("default", DEFAULT_VMS), ("any-vm1-vm2", {"vm1": "", "vm2": "", "vm3": "only Ubuntu\n"}),
-              ("fedora-win7", {"vm1": "only Fedora\n", "vm2": "only Win7\n", "vm3": "only Ubuntu\n"})]
+              ("fedora-win7", {"vm1": "only Fedora\n", "vm2": "only Win7\n", "vm3": "only Ubuntu\n"}),
+              # the same variants spelled through other components of their names (a test's own restriction lines may contain these words)
+              ("centos-by-driver", {"vm1": "only qemu_kvm_centos\n", "vm2": "only qemu_kvm_windows_10\n", "vm3": "only Ubuntu\n"}),
+              ("linux-windows", {"vm1": "only Linux\n", "vm2": "only Windows\n", "vm3": "only Ubuntu\n"})]
     if not q:
         vmsets += [("any", {"vm1": "", "vm2": "", "vm3": ""}), ("fedora-win10-kali", {"vm1": "only Fedora\n", "vm2": "only Win10\n", "vm3": "only Kali\n"})]
     netsets = ["net1", "net1 net2", "net1 net3 net5", "cluster1.net6 cluster2.net7", "net0", "net5 net1"]
